@@ -113,11 +113,11 @@ func (p *Program) bindClauseAt(c *Contract, cl *Clause, pos tokenPos, extra []st
 func (x *fnExec) notNew(v Val) {
 	switch v.K {
 	case VPtr:
-		x.facts = append(x.facts, Fact{x.next(), Not(App("newobj", SBool, v.Ref))})
+		x.facts = append(x.facts, Fact{x.next(), Not(App("newobj", SBool, v.Ref)), false})
 	case VSlice:
-		x.facts = append(x.facts, Fact{x.next(), Not(App("newobj", SBool, v.base()))})
+		x.facts = append(x.facts, Fact{x.next(), Not(App("newobj", SBool, v.base())), false})
 	case VIface:
-		x.facts = append(x.facts, Fact{x.next(), Not(App("newobj", SBool, v.Fs[1].T))})
+		x.facts = append(x.facts, Fact{x.next(), Not(App("newobj", SBool, v.Fs[1].T)), false})
 	case VStruct, VTuple:
 		for _, f := range v.Fs {
 			x.notNew(f)
@@ -181,6 +181,7 @@ func (x *fnExec) generate() {
 			goal, hyp, sk := env.clauseGoal(cl)
 			o := x.obligation(r.st, c.Key+":post#"+cl.Label, "post", site, clauseTags(c, cl), goal, hyp, cl.Src)
 			o.skolems = sk
+			o.blk = r.blk
 		}
 		if c.HasMod {
 			x.frameObligations(fr, r, site)
@@ -188,6 +189,7 @@ func (x *fnExec) generate() {
 		// vacuity smoke test: "false" at the return must be refutable
 		o := x.obligation(r.st, c.Key+":smoke", "smoke", site, nil, False, nil, "")
 		o.Smoke = true
+		o.blk = r.blk
 	}
 	if len(rets) == 0 {
 		x.errors = append(x.errors, "function has no reachable return")
@@ -267,7 +269,7 @@ func (x *fnExec) frameObligations(fr *frame, r retEdge, site string) {
 	eff := x.P.effectsOf(x.top)
 	name := c.Key + ":frame"
 	if eff.top {
-		x.obligation(r.st, name, "frame", site+": body has unknown effects", c.Tags, False, nil, "modifies "+strings.Join(c.Modifies, ", "))
+		x.obligation(r.st, name, "frame", site+": body has unknown effects", c.Tags, False, nil, "modifies "+strings.Join(c.Modifies, ", ")).blk = r.blk
 		return
 	}
 	type tgt struct {
@@ -346,7 +348,7 @@ func (x *fnExec) frameObligations(fr *frame, r retEdge, site string) {
 			excl = append(excl, Not(Eq(ref, a.ref)))
 		}
 		goal := Implies(And(excl...), StructEq(Select(cur, ref), Select(old, ref)))
-		x.obligation(r.st, name, "frame", site+": "+k, c.Tags, goal, nil, "modifies "+strings.Join(c.Modifies, ", "))
+		x.obligation(r.st, name, "frame", site+": "+k, c.Tags, goal, nil, "modifies "+strings.Join(c.Modifies, ", ")).blk = r.blk
 	}
 }
 
@@ -400,13 +402,106 @@ func candidates(roots []*Term) map[*Sort][]*Term {
 	return out
 }
 
+// heapSyms returns the heap-level symbols of a term: array-sorted constants and uninterpreted function names.
+var heapSymMemo = map[int]map[string]bool{}
+
+func heapSyms(t *Term) map[string]bool {
+	if m, ok := heapSymMemo[t.id]; ok {
+		return m
+	}
+	m := map[string]bool{}
+	Subterms([]*Term{t}, func(s *Term) {
+		switch {
+		case s.Op == "const" && (s.S.K == KArr || strings.Contains(s.Name, "!")):
+			// heap arrays and fresh symbols (call results, havocked loop variables, allocations, skolems);
+			// function inputs are left out: they occur everywhere and would connect everything
+			m[s.Name] = true
+		case s.Op == "app" && s.Name != "newobj":
+			m["@"+s.Name] = true
+		}
+	})
+	heapSymMemo[t.id] = m
+	return m
+}
+
+func intersects(a, b map[string]bool) bool {
+	if len(a) > len(b) {
+		a, b = b, a
+	}
+	for k := range a {
+		if b[k] {
+			return true
+		}
+	}
+	return false
+}
+
 func (x *fnExec) buildQuery(o *Obl, useQuant bool, exact bool) (smt string, getVals []string, usedQ int, usedOpaque int) {
 	w := newSMTWriter()
 	var roots []*Term
 	var ground []*Term
+	// cone of influence over heap symbols: facts that share no array / function symbol (transitively) with the goal
+	// and its path condition cannot help the proof; dropping hypotheses is sound
+	rel := map[string]bool{}
+	for k := range heapSyms(o.goal) {
+		rel[k] = true
+	}
+	for k := range heapSyms(o.hyp) {
+		rel[k] = true
+	}
+	type cand struct {
+		t    *Term
+		syms map[string]bool
+		q    *QFact
+		used bool
+	}
+	var cs []*cand
+	// facts established in a block that cannot execute before the obligation's block (other branch) are irrelevant
+	ob := o.blk
+	if ob == nil {
+		ob = x.blockAt(o.seq)
+	}
+	if os.Getenv("SCTPVC_NOPRUNE") != "" {
+		ob = nil
+	}
 	for _, f := range x.facts {
-		if f.seq < o.seq {
-			ground = append(ground, f.t)
+		if f.seq < o.seq && (o.Smoke || f.global || x.canPrecede(x.blockAt(f.seq), ob)) {
+			cs = append(cs, &cand{t: f.t, syms: heapSyms(f.t)})
+		} else if f.seq < o.seq && os.Getenv("SCTPVC_DEBUG") != "" && !o.Smoke {
+			fmt.Fprintf(os.Stderr, "PRUNE %s site=%s: fact seq=%d from block %d (obligation block %d): %s\n", o.Name, o.Site, f.seq, x.blockAt(f.seq).Index, ob.Index, f.t.Short())
+		}
+	}
+	var allQ []*QFact
+	for _, q := range x.qfacts {
+		if q.seq < o.seq && (o.Smoke || x.canPrecede(x.blockAt(q.seq), ob)) {
+			cs = append(cs, &cand{t: q.body, syms: heapSyms(Implies(q.pc, q.body)), q: q})
+		}
+	}
+	for changed := true; changed; {
+		changed = false
+		for _, c := range cs {
+			if c.used {
+				continue
+			}
+			if o.Smoke || len(c.syms) == 0 || intersects(c.syms, rel) {
+				c.used = true
+				for k := range c.syms {
+					if !rel[k] {
+						rel[k] = true
+						changed = true
+					}
+				}
+			}
+		}
+	}
+	for _, c := range cs {
+		if !c.used {
+			continue
+		}
+		if c.q != nil {
+			allQ = append(allQ, c.q)
+		} else {
+			ground = append(ground, c.t)
 		}
 	}
 	roots = append(roots, ground...)
@@ -414,12 +509,7 @@ func (x *fnExec) buildQuery(o *Obl, useQuant bool, exact bool) (smt string, getV
 	// allocation distinctness for terms that occur
 	present := map[int]bool{}
 	Subterms(roots, func(t *Term) { present[t.id] = true })
-	var qf []*QFact
-	for _, q := range x.qfacts {
-		if q.seq < o.seq {
-			qf = append(qf, q)
-		}
-	}
+	qf := allQ
 	var insts []*Term
 	if len(qf) > 0 {
 		usedQ = len(qf)
@@ -427,15 +517,20 @@ func (x *fnExec) buildQuery(o *Obl, useQuant bool, exact bool) (smt string, getV
 		known := map[int]bool{}
 		cur := roots
 		for round := 0; round < 2; round++ {
-			cands := candidates(append(append([]*Term{}, cur...), insts...))
+			// terms of the goal and its path condition first: the cap below then cuts the least relevant ones
+			cands := candidates(append(append([]*Term{o.goal, o.hyp}, cur...), insts...))
 			var newInsts []*Term
 			for _, q := range qf {
 				lists := make([][]*Term, len(q.vars))
 				total := 1
 				for i, v := range q.vars {
 					l := cands[v.S]
-					if len(l) > 48 {
-						l = l[:48]
+					lim := 48
+					if len(q.vars) == 1 {
+						lim = 120
+					}
+					if len(l) > lim {
+						l = l[:lim]
 					}
 					lists[i] = l
 					total *= len(l)
@@ -593,9 +688,28 @@ func (x *fnExec) discharge(cfg Config, filter func(o *Obl) bool) []*OblResult {
 	sem := make(chan struct{}, cfg.Jobs)
 	var wg sync.WaitGroup
 	var mu sync.Mutex
+	smokeDone := false
 	for i, o := range todo {
 		i, o := i, o
 		// queries are built sequentially (term table is not thread-safe), solved in parallel
+		if o.Smoke {
+			// vacuity: one reachable return is enough; try the returns one after the other
+			if smokeDone {
+				results[i] = siteResult{o, SolveResult{Status: "sat", Backend: "skipped"}, 0}
+				continue
+			}
+			smt, _, _, _ := x.buildQuery(o, false, false)
+			to := cfg.TimeoutS
+			if to > 15 {
+				to = 15
+			}
+			r := solve(fmt.Sprintf("%s.%d", o.Name, i), smt, nil, to, false)
+			if r.Status == "sat" || r.Status == "unknown" || r.Status == "timeout" {
+				smokeDone = true
+			}
+			results[i] = siteResult{o, r, 0}
+			continue
+		}
 		if o.goal == True {
 			results[i] = siteResult{o, SolveResult{Status: "unsat", Backend: "trivial"}, 0}
 			continue
@@ -717,6 +831,7 @@ func verifyFunction(p *Program, c *Contract, cfg Config, filter func(o *Obl) boo
 		return rep
 	}
 	resetTerms()
+	heapSymMemo = map[int]map[string]bool{}
 	x := newFnExec(p, c.Fn, c)
 	func() {
 		defer func() {
